@@ -112,6 +112,19 @@ class Runner:
             self.at_settled()
         elif op == "run":
             self.run_prompt(a[1])
+        elif op == "until_pin":
+            # ["until_pin", name, on?, max_s]: run (in steps of 0.25 s) until output `name` is on / off — anchors what follows to
+            # an event of the run instead of an absolute time (the time of a dosing pulse shifts with every change of a delay)
+            t = 0.0
+            while s.pin_on(a[1]) != bool(a[2]) and t < float(a[3]):
+                self.run_prompt(0.25)
+                t += 0.25
+        elif op == "until_state":
+            # ["until_state", actor, phase, max_s]: run until the controller is in the phase (prefix match)
+            t = 0.0
+            while not s.state(a[1]).startswith(a[2]) and t < float(a[3]):
+                self.run_prompt(0.25)
+                t += 0.25
         elif op == "tank":
             s.set_tank_level(a[1])
         elif op == "adc_fault":
